@@ -140,6 +140,22 @@ fn run_one(case: &CCase, sched_lines: &[String], free_seed: Option<u64>) -> Vec<
     let (cas, stats) = match Cas::<K>::open_with_recover(&root, conf) { Ok(x) => x, Err(e) => { out.push(format!("X open failed {e:?}")); return out; } };
     let stats = stats.map(|mut s| { s.orphaned_blobs.sort(); Arc::new(s) });
     for c in &setup { do_call(&cas, &stats, c); }
+    // injected obstacles (model-free cases only): `undeletable <content>` turns that content's blob
+    // into a non-empty directory, so that its later deletion fails; `blockckpt` puts a directory
+    // where checkpoints create their temporary snapshot file, so that every checkpoint fails
+    for l in &case.lines {
+        let t: Vec<&str> = l.split_whitespace().collect();
+        if t.first() == Some(&"undeletable") {
+            let data = parse_chunk(t[1]);
+            let hx = hex(blake3::hash(&data).as_bytes());
+            let p = root.join("cas").join(&hx[0..2]).join(&hx[2..4]).join(&hx[4..]);
+            let _ = std::fs::remove_file(&p);
+            std::fs::create_dir_all(&p).unwrap();
+            std::fs::write(p.join("f"), b"z").unwrap();
+        }
+        if t.first() == Some(&"blockckpt") { std::fs::create_dir_all(root.join("index.tmp").join("d")).unwrap(); }
+    }
+    let fsched: Vec<usize> = case.lines.iter().filter(|l| l.starts_with("fsched ")).flat_map(|l| l.split_whitespace().skip(1).map(|x| x.parse::<usize>().unwrap()).collect::<Vec<_>>()).collect();
     let sched = Arc::new(Sched { st: Mutex::new(SState { parked: HashMap::new(), go: HashSet::new(), results: vec![], shutdown: false }), cv: Condvar::new() });
     *CUR.lock().unwrap() = Some(sched.clone());
     let mut handles = vec![];
@@ -176,6 +192,13 @@ fn run_one(case: &CCase, sched_lines: &[String], free_seed: Option<u64>) -> Vec<
         let mut rng = seed.wrapping_mul(6364136223846793005).wrapping_add(1442695040888963407);
         let mut step = 0usize;
         let mut idle_rounds = 0;
+        // even seeds: priority scheduling with one priority change point (finds interleavings in
+        // which one thread sleeps through whole calls of another); odd seeds: uniform choice
+        let pct = seed % 2 == 0;
+        let mut prio: HashMap<usize, u64> = HashMap::new();
+        for (id, _) in &threads { rng = rng.wrapping_mul(6364136223846793005).wrapping_add(1442695040888963407); prio.insert(*id, 1000 + (rng >> 33) % 1000); }
+        rng = rng.wrapping_mul(6364136223846793005).wrapping_add(1442695040888963407);
+        let change_at = ((rng >> 33) % 40) as usize;
         while step < 400 && idle_rounds < 40 {
             let bits = cassadilia::verif::lock_state(cas.as_arc());
             let cands: Vec<(usize, String)> = {
@@ -195,7 +218,12 @@ fn run_one(case: &CCase, sched_lines: &[String], free_seed: Option<u64>) -> Vec<
                 continue;
             }
             rng = rng.wrapping_mul(6364136223846793005).wrapping_add(1442695040888963407);
-            let (tid, from) = cands[((rng >> 33) as usize) % cands.len()].clone();
+            let forced = fsched.get(step).and_then(|t| cands.iter().find(|(c, _)| c == t).cloned());
+            let (tid, from) = if let Some(f) = forced { f } else if step < fsched.len() || !pct { cands[((rng >> 33) as usize) % cands.len()].clone() } else {
+                let best = cands.iter().max_by_key(|(t, _)| prio[t]).unwrap().clone();
+                if step == change_at + fsched.len() { prio.insert(best.0, step as u64); }
+                cands.iter().max_by_key(|(t, _)| prio[t]).unwrap().clone()
+            };
             { let mut g = sched.st.lock().unwrap(); g.parked.remove(&tid); g.go.insert(tid); sched.cv.notify_all(); }
             let start = Instant::now();
             let mut to = None;
